@@ -706,6 +706,8 @@ class Analysis:
         """nodes connected to nid (streamz binds loops per connected pipeline)"""
         adj = defaultdict(set)
         for n in self.sc['graph']:
+            if n['op'] == 'slice' and n.get('end') == 0:
+                continue            # slice(end=0) detaches itself from its parent as soon as it is built
             for u in n.get('up', []):
                 adj[u].add(n['id'])
                 adj[n['id']].add(u)
